@@ -266,7 +266,10 @@ VIEW_ATTRS = {"T", "real", "imag", "flat"}
 
 def value_attr(interp, base, attr, st, node):
     if attr in VIEW_ATTRS:
-        return base.copy(items=None, const=NOCONST, sym=None)
+        out = base.copy(items=None, const=NOCONST, sym=None)
+        if attr == "T" and "orth" in base.tags:
+            out.tags = (base.tags - {"transposed"}) if "transposed" in base.tags else (base.tags | {"transposed"})
+        return out
     if attr in ("shape",):
         return Val(kind="tuple", dim=D0, elem=Val(kind="int", dim=D0, deps=base.deps, pdeps=base.pdeps),
                    deps=base.deps, pdeps=base.pdeps, born=interp.time)
@@ -334,6 +337,7 @@ def call_method(interp, base, name, node, args, kwargs, st):
         return vconst(None)
     if name in ("dot",):
         other = args[0] if args else Val()
+        interp.emit(st, "dotcall", node, left=base, right=other, method=True)
         d = dim_collapse(dim_mul(base.dim, other.dim))
         tags = frozenset([("linmap-of", tuple(sorted(base.al)), other.tags)]) if base.al else frozenset()
         return Val(dim=d, kind="arr", deps=deps, pdeps=pdeps, born=t, tags=tags)
@@ -532,6 +536,7 @@ def call_ext(interp, ext, node, args, kwargs, st):
             return fresh(dim, kind=kind, tags=frozenset([("reduced", name)]) | keep_batch, sym=sym)
         if name in DIMLESS_ARG:
             if a0 is not None:
+                interp.emit(st, "trigcall", node, fn=name, arg=a0)
                 d = dim_collapse(a0.dim)
                 if dim_known(d) and d[1] != 0:
                     interp.emit(st, "nondimless", node, fn=name, arg=a0)
@@ -578,6 +583,8 @@ def call_ext(interp, ext, node, args, kwargs, st):
             return out
         if name in ("dot", "inner", "matmul", "outer", "multiply", "cross", "tensordot", "kron", "vdot"):
             b = args[1] if len(args) > 1 else Val()
+            if name in ("dot", "matmul"):
+                interp.emit(st, "dotcall", node, left=a0, right=b, method=False)
             d = dim_mul(a0.dim if a0 is not None else TOP, b.dim)
             if name not in ("multiply", "cross", "outer"):
                 d = dim_collapse(d)
